@@ -31,6 +31,8 @@ pub enum Ty {
     Opt(Box<Ty>),
     List(Box<Ty>),
     Tuple(Vec<Ty>),
+    /// `Result<A, B>`
+    Res(Box<Ty>, Box<Ty>),
     Fun(Vec<Ty>, Box<Ty>),
     Counter,
     /// a user callback without result held as a value (`F: FnOnce()` inside an `Option` cell)
@@ -73,6 +75,7 @@ impl Ty {
             Ty::Opt(t) => format!("(Option {})", t.lean()),
             Ty::List(t) => format!("(List {})", t.lean()),
             Ty::Tuple(ts) => format!("({})", ts.iter().map(|t| t.lean()).collect::<Vec<_>>().join(" × ")),
+            Ty::Res(a, b) => format!("(Except {} {})", b.lean(), a.lean()),
             Ty::Fun(a, r) => {
                 let mut s = String::new();
                 for t in a {
@@ -205,7 +208,7 @@ impl Generics {
                             "Scheduler" => {
                                 g.map.insert(n.clone(), Ty::Sched);
                             }
-                            "Extend" => {
+                            "Extend" | "IntoIterator" | "Iterator" => {
                                 g.map.insert(n.clone(), Ty::List(Box::new(Ty::Val)));
                             }
                             _ => {}
@@ -261,6 +264,7 @@ impl Generics {
                     "usize" | "u32" | "u64" | "u8" | "u16" | "Duration" => Ok(Ty::Nat),
                     "bool" | "AtomicBool" => Ok(Ty::Bool),
                     "Option" => Ok(Ty::Opt(Box::new(self.ty(args[0])?))),
+                    "Result" if args.len() == 2 => Ok(Ty::Res(Box::new(self.ty(args[0])?), Box::new(self.ty(args[1])?))),
                     "Vec" | "VecDeque" | "HashSet" => Ok(Ty::List(Box::new(self.ty(args[0])?))),
                     "HashMap" if args.len() == 2 => Ok(Ty::List(Box::new(Ty::Tuple(vec![self.ty(args[0])?, self.ty(args[1])?])))),
                     "Infallible" => Ok(Ty::Err),
@@ -347,6 +351,8 @@ pub struct MethodInfo {
     pub partial: bool,
     /// takes `self` by value
     pub consumes: bool,
+    /// a source's `actual_subscribe(self, observer)`: extra parameter `downF : Rs.Out → Bool`
+    pub dyn_down: bool,
 }
 
 pub struct StructInfo {
@@ -400,6 +406,10 @@ pub struct Fx<'a> {
     extra: Vec<String>,
     /// name of the function being translated
     fname: String,
+    /// a source's `actual_subscribe`: `observer.is_finished()` depends on what has been delivered so far
+    dyn_down: bool,
+    /// inside a `while` with `break` / loop-carried locals: the state tuple a `break` hands back
+    loop_state: Option<String>,
 }
 
 impl<'a> Fx<'a> {
@@ -427,6 +437,8 @@ impl<'a> Fx<'a> {
             payload_of: self.payload_of.clone(),
             extra: vec![],
             fname: self.fname.clone(),
+            dyn_down: self.dyn_down,
+            loop_state: self.loop_state.clone(),
         }
     }
 
@@ -718,6 +730,12 @@ impl<'a> Fx<'a> {
                         _ => None,
                     };
                     self.bind(&ts.elems[0], ti);
+                } else if (n == "Ok" || n == "Err") && ts.elems.len() == 1 {
+                    let ti = match t {
+                        Some(Ty::Res(a, b)) => Some(if n == "Ok" { *a } else { *b }),
+                        _ => None,
+                    };
+                    self.bind(&ts.elems[0], ti);
                 } else {
                     for e in &ts.elems {
                         self.bind(e, None);
@@ -758,6 +776,8 @@ impl<'a> Fx<'a> {
                 }
                 match (n.as_str(), parts.len()) {
                     ("Some", 1) => Ok(format!("(some {})", parts[0])),
+                    ("Ok", 1) => Ok(format!("(Except.ok {})", parts[0])),
+                    ("Err", 1) => Ok(format!("(Except.error {})", parts[0])),
                     _ => bail(format!("pattern `{}`", show(p))),
                 }
             }
@@ -1132,6 +1152,27 @@ impl<'a> Fx<'a> {
                 if !self.effectful {
                     return bail("loop in a pure function");
                 }
+                let body_txt = show_full(&w.body);
+                let has_break = body_txt.contains("break");
+                // locals of the enclosing function that the body mutates (`iter.next()`, `x = ..`, `v.push(..)`)
+                let mut carried: Vec<(String, Ty)> = vec![];
+                for (n, t) in &self.locals {
+                    if *t == Ty::Obs {
+                        continue;
+                    }
+                    let muts = ["next", "push", "pop", "pop_front", "pop_back", "push_back", "push_front", "insert", "clear", "take", "extend"];
+                    let hit = muts.iter().any(|m| body_txt.contains(&format!("{} . {} (", n, m)))
+                        || body_txt.contains(&format!("{} = ", n))
+                        || body_txt.contains(&format!("{} += ", n))
+                        || body_txt.contains(&format!("{} -= ", n));
+                    if hit {
+                        carried.push((n.clone(), t.clone()));
+                    }
+                }
+                carried.sort_by(|a, b| a.0.cmp(&b.0));
+                if has_break || !carried.is_empty() {
+                    return self.while_general(w, &carried);
+                }
                 let fuel = self.fuel();
                 let mut cond_fx = self.sub();
                 let c = cond_fx.expr(&w.cond)?;
@@ -1185,6 +1226,18 @@ impl<'a> Fx<'a> {
                 self.emit("out := r.2");
                 Ok(())
             }
+            Expr::Break(b) => {
+                if b.label.is_some() || b.expr.is_some() {
+                    return bail("labelled break / break with a value");
+                }
+                match self.loop_state.clone() {
+                    Some(st) => {
+                        self.emit(format!("return ({}, true)", st));
+                        Ok(())
+                    }
+                    None => bail("break outside a translated loop"),
+                }
+            }
             Expr::Return(r) => {
                 if r.expr.is_some() {
                     return bail("return with a value");
@@ -1202,6 +1255,63 @@ impl<'a> Fx<'a> {
                 Ok(())
             }
         }
+    }
+
+    /// `while c { .. }` whose body may `break` and mutates locals of the enclosing function: the loop state is the
+    /// tuple (self_, out, carried locals); the body answers (state, broke?)
+    fn while_general(&mut self, w: &syn::ExprWhile, carried: &[(String, Ty)]) -> Res<()> {
+        let sn = self.state_ty();
+        let mut names: Vec<String> = vec!["self_".into(), "out".into()];
+        let mut tys: Vec<String> = vec![sn, "Rs.Out".into()];
+        for (n, t) in carried {
+            names.push(n.clone());
+            tys.push(t.lean());
+        }
+        let k = names.len();
+        let acc = |i: usize| -> String {
+            // component i of a right-nested k-tuple `p`
+            let mut s = "p".to_string();
+            for _ in 0..i {
+                s += ".2";
+            }
+            if i + 1 < k {
+                s += ".1";
+            }
+            s
+        };
+        let tuple = format!("({})", names.join(", "));
+        let tty = format!("({})", tys.join(" × "));
+        let mut fuel_parts: Vec<String> = vec![self.fuel()];
+        for (n, t) in carried {
+            if matches!(t, Ty::List(_)) {
+                fuel_parts.push(format!("{}.length", n));
+            }
+        }
+        if matches!(self.strukt.root_ty, Some(Ty::List(_))) {
+            fuel_parts.push("self_.length".into());
+        }
+        let lets: String = (0..k).map(|i| format!("let {} := {}; ", names[i], acc(i))).collect();
+        let mut cond_fx = self.sub();
+        let c = cond_fx.expr(&w.cond)?;
+        if !cond_fx.lines.is_empty() {
+            return bail("loop condition with effects");
+        }
+        let mut body = self.sub();
+        body.ind = 2;
+        body.loop_state = Some(tuple.clone());
+        body.block_stmts(&w.body)?;
+        self.emit(format!("let r ← Rs.loopFuel ({}) (fun (p : {}) => {}{}) (fun (p : {}) => do", fuel_parts.join(" + "), tty, lets, c, tty));
+        for i in 0..k {
+            self.emit(format!("    let mut {} := {}", names[i], acc(i)));
+        }
+        for l in body.lines {
+            self.emit(l);
+        }
+        self.emit(format!("    return ({}, false)) {}", tuple, tuple));
+        for i in 0..k {
+            self.emit(format!("{} := {}", names[i], acc(i).replacen("p", "r", 1)));
+        }
+        Ok(())
     }
 
     fn else_stmts(&mut self, e: &Expr) -> Res<()> {
@@ -1871,7 +1981,12 @@ impl<'a> Fx<'a> {
                         self.out(format!("Rs.emitError {} {}", r, v))?;
                     }
                     "complete" => self.out(format!("Rs.emitComplete {}", r))?,
-                    _ => return Ok(format!("(Rs.isFinished {} down)", r)),
+                    _ => {
+                        if self.dyn_down {
+                            return Ok(format!("(Rs.isFinished {} (downF out))", r));
+                        }
+                        return Ok(format!("(Rs.isFinished {} down)", r));
+                    }
                 }
                 Ok("()".into())
             }
@@ -2005,6 +2120,15 @@ impl<'a> Fx<'a> {
                 let cur = self.read_place(&pl);
                 let t = self.fresh("t");
                 self.emit(format!("let {} := Rs.setInsert {} {}", t, cur, v));
+                self.write_place(&pl, &format!("{}.2", t))?;
+                Ok(format!("{}.1", t))
+            }
+            ("next", 0) if matches!(rt, Some(Ty::List(_))) => {
+                // `iter.next()` of an iterator over a translated collection
+                let pl = self.place(&m.receiver)?;
+                let cur = self.read_place(&pl);
+                let t = self.fresh("t");
+                self.emit(format!("let {} := Rs.popFront {}", t, cur));
                 self.write_place(&pl, &format!("{}.2", t))?;
                 Ok(format!("{}.1", t))
             }
@@ -2420,6 +2544,8 @@ pub fn translate_task_fn(items: &[Item], fname: &str, obs: &str, fields: &[&str]
         payload_of: HashMap::new(),
         extra: vec![],
         fname: format!("task_{}", fname),
+        dyn_down: false,
+        loop_state: None,
     };
     let n = f.block.stmts.len();
     for (k, st) in f.block.stmts.iter().enumerate() {
@@ -2476,6 +2602,8 @@ pub fn translate_tick_fn(items: &[Item], fname: &str, obs: &str, ctx: &Ctx) -> R
         payload_of: HashMap::new(),
         extra: vec![],
         fname: format!("tick_{}", fname),
+        dyn_down: false,
+        loop_state: None,
     };
     fn tail(fx: &mut Fx, e: &Expr) -> Res<()> {
         match e {
@@ -2651,6 +2779,10 @@ pub fn translate_observer(items: &[Item], name: &str, ctx: &mut Ctx, hints: &Has
                 newtype = true;
                 root_ty = Some(sg.ty(&u.unnamed[0].ty).map_err(|e| format!("field 0: {}", e))?);
             }
+            Fields::Unit => {
+                newtype = true;
+                root_ty = Some(Ty::Unit);
+            }
             _ => return bail("struct shape"),
         }
     }
@@ -2694,6 +2826,7 @@ pub fn translate_observer(items: &[Item], name: &str, ctx: &mut Ctx, hints: &Has
         }
         let mut has_ret = !matches!(u.f.sig.output, ReturnType::Default);
         let subscribe = fname == "actual_subscribe";
+        let is_source = subscribe && !["Subscriber", "Box :: new", "actual_subscribe"].iter().any(|k| show_full(&u.f.block).contains(k));
         if subscribe {
             has_ret = false; // the subscription handed back is the new subscriber itself (`newPub`)
         }
@@ -2721,7 +2854,7 @@ pub fn translate_observer(items: &[Item], name: &str, ctx: &mut Ctx, hints: &Has
         }
         info.methods.insert(
             fname.clone(),
-            MethodInfo { effectful: !has_ret, params: params.clone(), needs_closed, needs_down, needs_pub: subscribe, needs_grp: body_txt.contains("or_insert_with"), needs_handle: body_txt.contains(". schedule ("), ret: ret.clone(), partial: false, consumes: matches!(recv, Some(FnArg::Receiver(r)) if matches!(&r.kind, syn::ReceiverKind::Value)) },
+            MethodInfo { effectful: !has_ret, params: params.clone(), needs_closed, needs_down, needs_pub: subscribe && !is_source, needs_grp: body_txt.contains("or_insert_with"), needs_handle: body_txt.contains(". schedule ("), ret: ret.clone(), partial: false, consumes: matches!(recv, Some(FnArg::Receiver(r)) if matches!(&r.kind, syn::ReceiverKind::Value)), dyn_down: subscribe && params.iter().any(|(_, t)| *t == Ty::Obs) && body_txt.contains("is_finished") },
         );
         sigs.push((fname, params, !has_ret));
     }
@@ -2779,6 +2912,9 @@ pub fn translate_observer(items: &[Item], name: &str, ctx: &mut Ctx, hints: &Has
         if mi.needs_down {
             ps += " (down : Bool)";
         }
+        if mi.dyn_down {
+            ps += " (downF : Rs.Out → Bool)";
+        }
         if mi.needs_closed {
             ps += " (closedOf : Nat → Bool)";
         }
@@ -2795,6 +2931,8 @@ pub fn translate_observer(items: &[Item], name: &str, ctx: &mut Ctx, hints: &Has
             payload_of: HashMap::new(),
             extra: vec![],
             fname: fname.clone(),
+            dyn_down: mi.dyn_down,
+            loop_state: None,
         };
         if *effectful {
             let mut ok = true;
@@ -2823,7 +2961,7 @@ pub fn translate_observer(items: &[Item], name: &str, ctx: &mut Ctx, hints: &Has
                 Ok(v) => writeln!(s, "def {}.{} (self_ : {}){}{} : {} :=\n  {}\n", name, fname, state_ty, ps, down, mi.ret.lean(), v).unwrap(),
                 Err(e1) => {
                     // a query that can panic (`unwrap()`): the same in the Option monad
-                    let mut fx2 = Fx { strukt: &info, ctx, lines: vec![], ind: 1, tmp: 0, locals: params.iter().cloned().collect(), aliases: HashMap::new(), effectful: false, newtype, payload_of: HashMap::new(), extra: vec![], fname: fname.clone() };
+                    let mut fx2 = Fx { strukt: &info, ctx, lines: vec![], ind: 1, tmp: 0, locals: params.iter().cloned().collect(), aliases: HashMap::new(), effectful: false, newtype, payload_of: HashMap::new(), extra: vec![], fname: fname.clone(), dyn_down: false, loop_state: None };
                     let n = u.f.block.stmts.len();
                     let mut res: Res<String> = bail("empty body");
                     for (k, st) in u.f.block.stmts.iter().enumerate() {
@@ -3567,7 +3705,7 @@ fn main() {
             // the slot observer
             if ent.imports.contains(&"RcObserver") {
                 let mut methods = HashMap::new();
-                let mi = |e: bool, ps: Vec<(String, Ty)>| MethodInfo { effectful: e, params: ps, needs_closed: false, needs_down: !e, needs_pub: false, needs_grp: false, needs_handle: false, ret: Ty::Bool, partial: false, consumes: false };
+                let mi = |e: bool, ps: Vec<(String, Ty)>| MethodInfo { effectful: e, params: ps, needs_closed: false, needs_down: !e, needs_pub: false, needs_grp: false, needs_handle: false, ret: Ty::Bool, partial: false, consumes: false, dyn_down: false };
                 methods.insert("next".to_string(), mi(true, vec![("value".into(), Ty::Val)]));
                 methods.insert("error".to_string(), mi(true, vec![("err".into(), Ty::Err)]));
                 methods.insert("complete".to_string(), mi(true, vec![]));
